@@ -1,5 +1,6 @@
 import Driver.Common
 import ClarabelModel.Loop
+import ClarabelModel.StepK
 
 open Clarabel Clarabel.Loop Clarabel.Loop.Step Driver
 
@@ -10,6 +11,90 @@ end Driver
 
 /-- `f64::MAX` -/
 def f64Max : Float := Float.ofBits 0x7FEFFFFFFFFFFFFF
+
+namespace DriverC07
+open Clarabel.StepK
+
+/-- fuel for the nonsymmetric cones' `backtrack_search` (exhaustion is reported) -/
+def btFuel : Nat := 200000
+
+/-- `γ` with its LAPACK status flag (`0` = `eigvals` failed) -/
+def gammaOf (ok : Nat) (g : Float) : Option Float := if ok == 0 then none else some g
+
+/-- the cone blocks of a `vars.step_k` request.  `kinds`: 0 zero, 1 nonnegative, 2 second-order,
+3 exponential (`alphas[i] < 0`) / power, 4 PSD triangle (`dims` = matrix order), 5 generalised
+power; flat `z s dz ds` in `rng_cones` order; per PSD block `n²` entries of `psdR`, `psdRinv` and
+two entries of `psdg` / `psdok` (the LAPACK answers for `W Δz`, `W⁻ᵀ Δs`) -/
+def blks (kv : KV) : Option (List (Blk Float)) := do
+  let ks ← kv.nats "kinds"
+  let ds ← kv.nats "dims"
+  let z ← kv.floats "z"
+  let s ← kv.floats "s"
+  let dz ← kv.floats "dz"
+  let dsv ← kv.floats "ds"
+  let alphas ← kv.floats "alphas"
+  let gpal ← kv.floats "gpal"
+  let gpd1 ← kv.nats "gpd1"
+  let pg ← kv.floats "psdg"
+  let pok ← kv.nats "psdok"
+  let pR ← kv.floats "psdR"
+  let pRi ← kv.floats "psdRinv"
+  if ks.size ≠ ds.size then none
+  let rec go : List (Nat × Nat) → Nat → Nat → Nat → Nat → Nat → Nat → Option (List (Blk Float))
+    | [], _, _, _, _, _, _ => some []
+    | (k, n) :: rest, start, ia, ig, iga, ip, ir => do
+      let len := if k == 4 then PsdIndex.triangularNumber n else n
+      let zi := z.extract start (start + len)
+      let si := s.extract start (start + len)
+      let dzi := dz.extract start (start + len)
+      let dsi := dsv.extract start (start + len)
+      if zi.size ≠ len ∨ si.size ≠ len ∨ dzi.size ≠ len ∨ dsi.size ≠ len then none
+      match k with
+      | 0 => do
+        let tl ← go rest (start + len) ia ig iga ip ir
+        pure (.zero zi si dzi dsi :: tl)
+      | 1 => do
+        let tl ← go rest (start + len) ia ig iga ip ir
+        pure (.nn zi si dzi dsi :: tl)
+      | 2 => do
+        let tl ← go rest (start + len) ia ig iga ip ir
+        pure (.soc zi si dzi dsi :: tl)
+      | 3 => do
+        let al ← alphas[ia]?
+        let z3 ← Nonsym.v3ofArray? zi
+        let s3 ← Nonsym.v3ofArray? si
+        let dz3 ← Nonsym.v3ofArray? dzi
+        let ds3 ← Nonsym.v3ofArray? dsi
+        let tl ← go rest (start + len) (ia + 1) ig iga ip ir
+        pure ((if al < 0 then .exp z3 s3 dz3 ds3 else .pow al z3 s3 dz3 ds3) :: tl)
+      | 4 => do
+        let gz ← pg[2 * ip]?
+        let gs ← pg[2 * ip + 1]?
+        let okz ← pok[2 * ip]?
+        let oks ← pok[2 * ip + 1]?
+        let R := pR.extract ir (ir + n * n)
+        let Ri := pRi.extract ir (ir + n * n)
+        if R.size ≠ n * n ∨ Ri.size ≠ n * n then none
+        let tl ← go rest (start + len) ia ig iga (ip + 1) (ir + n * n)
+        pure (.psd ⟨n, #[], #[], R, Ri, #[]⟩ (gammaOf okz gz) (gammaOf oks gs) zi si dzi dsi :: tl)
+      | 5 => do
+        let d1 ← gpd1[ig]?
+        let al := gpal.extract iga (iga + d1)
+        if al.size ≠ d1 then none
+        let tl ← go rest (start + len) ia (ig + 1) (iga + d1) ip ir
+        pure (.genpow al zi si dzi dsi :: tl)
+      | _ => none
+  go (ks.toList.zip ds.toList) 0 0 0 0 0 0
+
+def pt (kv : KV) : Option (Pt Float) := do
+  let b ← blks kv
+  pure { x := ← kv.floats "x", dx := ← kv.floats "dx", blks := b, τ := ← kv.float "tau",
+         κ := ← kv.float "kappa", dτ := ← kv.float "dtau", dκ := ← kv.float "dkappa" }
+
+def fmtE : ModelErr → String := fun e =>
+  String.ofList ((fmtErr e).toList.map (fun c => if c == ' ' then '_' else c))
+
+end DriverC07
 
 def handleC07 (ch : String) (kv : KV) : String :=
   match ch with
@@ -28,6 +113,17 @@ def handleC07 (ch : String) (kv : KV) : String :=
       s!"x={fmtFloats (addStepVec x dx a)} s={fmtFloats (addStepVec s ds a)} z={fmtFloats (addStepVec z dz a)} " ++
       s!"tau={fmtFloat (addStepScalar tau dtau a)} kappa={fmtFloat (addStepScalar kappa dkappa a)}"
     | _, _, _, _, _, _, _, _, _, _, _ => "bad-request"
+  | "vars.step_k" =>
+    -- calc_step_length over a composite of all cone kinds, then add_step with the value obtained
+    match DriverC07.pt kv, kv.float "msf", kv.float "bstep", kv.float "bamin", kv.nat "combined" with
+    | some p, some msf, some bstep, some bamin, some comb =>
+      match Clarabel.StepK.calcStepLength f64Max ⟨bstep, bamin, DriverC07.btFuel⟩ p (comb != 0) msf with
+      | .error e => DriverC07.fmtE e
+      | .ok a =>
+        let q := Clarabel.StepK.addStep p a
+        s!"alpha={fmtFloat a} x={fmtFloats q.x} s={fmtFloats q.sFlat.toArray} z={fmtFloats q.zFlat.toArray} " ++
+        s!"tau={fmtFloat q.τ} kappa={fmtFloat q.κ}"
+    | _, _, _, _, _ => "bad-request"
   | "loop.prefix" =>
     -- the long run's oracle answers, replayed under every smaller iteration budget
     match kv.config, kv.oracles, kv.nats "ks" with
